@@ -10,6 +10,7 @@ import json
 import re
 
 from ..gen import tlbvals as V
+from .. import tracetlb as TR
 
 SPEC = dict(
     manifest=dict(
@@ -17,8 +18,25 @@ SPEC = dict(
         text='Every covered block.tlb type is a term of lawful codec combinators in Lean; for each there is a machine-checked '
              'theorem that the spec decoder inverts the spec encoder for ALL values and consumes exactly the encoded bits and '
              'refs (any continuation), plus prefix-freeness of all constructor tags. The library parsers are tied to the spec '
-             'encoder by sampled encoder->parser correspondence (every field and the remaining bits/refs compared) and by '
-             'decoding the bundled main-net block with both the spec decoder and the library. Covered: Transaction, '
+             'encoder by sampled encoder->parser correspondence (every field and the remaining bits/refs compared), by '
+             'decoding the bundled main-net block with both the spec decoder and the library, and by a READ-TRACE comparison: '
+             'every read the parser performs (kind, width, signedness, cell, order; which read ends up in which attribute) is '
+             'recorded through a recording Slice and compared with the read sequence of the spec codec (Codec.trace, proved to be an '
+             'exact read script of the spec encoding: c16_trace_accounts_for_encoding + Traced T for every covered type) on every '
+             'sampled value, on the main-net block and on one generated value per PATH of the schema term (tag alternatives x Maybe/'
+             'Either bits x flag fields with their dependent fields). PATH-COMPLETE (all paths of the whole term, <= 300, nested '
+             'types included): MsgAddressExt, MsgAddressInt (load_address), CommonMsgInfo, AccStatusChange, Account, AccountBlock, AccountState, AccountStatus, AccountStorage, BlkMasterInfo, '
+             'BlkPrevInfo, BlockCreateStats, BlockInfo, CatchainConfig, ComputeSkipReason, ConfigParams, ConsensusConfig, Counters, '
+             'CreatorStats, CurrencyCollection, DepthBalanceInfo, ExtBlkRef, ExtraCurrencyCollection, FutureSplitMerge, GlobalVersion, '
+             'HashUpdate, ImportFees, InMsgDescr, IntermediateAddress, KeyExtBlkRef, KeyMaxLt, McStateExtra, MsgMetadata, '
+             'OldMcBlocksInfo, OutMsgDescr, ShardAccount, ShardAccountBlocks, ShardAccounts, ShardDescr, ShardHashes, ShardIdent, '
+             'SigPubKey, SplitMergeInfo, StateInit, StorageInfo, StorageUsed, StorageUsedShort, TickTock, TrActionPhase, '
+             'TrBouncePhase, TrComputePhase, TrCreditPhase, TrStoragePhase, ValidatorDescr, ValidatorInfo, ValidatorSet. '
+             'LOCAL path-complete (every path of the type\'s own branch structure = one parser function; nested named types sampled '
+             'and covered by their own rows): TransactionDescr, Transaction, ^Message, MsgEnvelope, InMsg, OutMsg, ValueFlow, McBlockExtra, '
+             'BlockExtra, Block, ShardStateUnsplit, ShardState. SAMPLED only: dictionary (Hashmap/HashmapAug Patricia tree) and '
+             'BinTree shapes (empty / non-empty are paths, the tree is random), prepare_transaction nesting depth (<= 3), field '
+             'values (the trace fixes their width and signedness). Covered: Transaction, '
              'TransactionDescr(7), TrStoragePhase, TrCreditPhase, TrComputePhase(2), TrActionPhase, TrBouncePhase(3), '
              'AccStatusChange, ComputeSkipReason, SplitMergeInfo, AccountStatus, HashUpdate, Account, StorageInfo, StorageUsed, '
              'StorageUsedShort, AccountStorage, AccountState, StateInit, ShardAccount, ShardAccounts, DepthBalanceInfo, AccountBlock, '
@@ -33,19 +51,26 @@ SPEC = dict(
              '(as in the parser); chained signatures and addr_var addresses are not generated.',
         level_note='Theorems are about the Lean spec codec pair (the independent implementation of the schema), for all values. '
                    'The Python parsers are NOT translated: they are tied by differential testing against the spec encoder on '
-                   'generated values (every constructor, optional-field combination, boundary and random field values) and on '
-                   'the bundled block. Trusted: transcription of block.tlb into Spec/Tlb/Block.lean, the attribute table in '
-                   'harness/props/C16.py, the driver and cell construction.',
+                   'generated values (every constructor, optional-field combination, boundary and random field values), on '
+                   'the bundled block, and by agreement of the typed read sequence on every path of the schema (path-complete / '
+                   'local path-complete lists in the text) — a parser branching on a field VALUE the schema does not branch on is '
+                   'outside that enumeration. Trusted: transcription of block.tlb into Spec/Tlb/Block.lean, the attribute table in '
+                   'harness/props/C16.py, harness/tracetlb.py (recording slice, trace alignment), the driver and cell construction.',
         technique='Lean 4 proof (lawful codec combinators, laws composed by type-class resolution) + differential '
-                  'encoder->parser correspondence with the library'),
+                  'encoder->parser correspondence with the library + path-complete read-trace comparison (recording slice vs '
+                  'proved spec trace)'),
     design_ref='DESIGN.md §6 C16',
     rule='for every covered type: values generated by the Lean codec generators (every constructor alternative and Maybe/Either '
          'choice at random, integer fields from {0, 1, max, top bit, random}, random bit strings, random small Patricia trees) '
-         'encoded by the spec encoder with a random trailer of bits and refs; distinct = distinct (type, seed); non-trivial = encodable',
+         'encoded by the spec encoder with a random trailer of bits and refs; plus one value per PATH of the schema term '
+         '(tlbpaths full / loc, cap 300 quick, 3000 thorough; a path = its index in the fixed enumeration order); '
+         'distinct = distinct (type, seed) / (type, mode, seed, path index); non-trivial = encodable',
     trusted_base=['Spec/Tlb/Block.lean transcribes block.tlb (+ upstream constructors the parsers read) by hand',
                   'harness/props/C16.py READERS: library attribute <-> schema field table', 'harness/gen/tlbvals.py flattening of spec trees',
-                  'Drv/Tlb.lean value printing and DAG emission; harness/gen/cells.lib_build'],
-    assumptions=['encoder->parser correspondence is sampled differential testing',
+                  'Drv/Tlb.lean value printing and DAG emission; harness/gen/cells.lib_build',
+                  'harness/tracetlb.py: RecSlice records every primitive read of pytoniq_core.boc.slice.Slice; alignment rules of compare()'],
+    assumptions=['encoder->parser correspondence is sampled differential testing; read-trace agreement is per path of the SCHEMA term',
+                 'dictionary / BinTree shapes and the prepare_transaction nesting depth are sampled, not enumerated',
                  'Transaction nesting (prepare_transaction) is generated to depth 3; the theorem holds for every budget',
                  'addr_var addresses are in the spec but not generated (library has no addr_var; addresses belong to C06/C15)'],
 )
@@ -66,7 +91,8 @@ def I(o):
 def BITS(o):
     from bitarray import bitarray
     if isinstance(o, (bytes, bytearray)):
-        return ''.join(format(x, '08b') for x in o)
+        r = ''.join(format(x, '08b') for x in o)
+        return TR.PStr(r, o._ev) if hasattr(o, '_ev') else r      # provenance of a traced read survives the table
     if isinstance(o, str):
         return ''.join(format(x, '08b') for x in bytes.fromhex(o))
     if isinstance(o, bitarray):
@@ -166,6 +192,8 @@ def addr_ext(o):
 
 
 R = {}
+R['MsgAddressInt'] = addr_int
+R['MsgAddressExt'] = addr_ext
 R['ExtraCurrencyCollection'] = rec(('dict', 'dict', DICT(I)))
 R['CurrencyCollection'] = rec(('grams', 'grams', I), ('other', 'other', R['ExtraCurrencyCollection']))
 CC = R['CurrencyCollection']
@@ -180,6 +208,7 @@ R['CommonMsgInfo'] = alts(lambda o: type(o).__name__, {
 })
 R['Message'] = rec(('info', 'info', R['CommonMsgInfo']), ('init', 'init', MAYBE(EITHER(R['StateInit']))), ('body', 'body', EITHER(CELL)))
 MSG = R['Message']
+R['MessageRef'] = MSG
 R['AccountStatus'] = by_type({'uninitialized': ('acc_state_uninit', NONE), 'frozen': ('acc_state_frozen', NONE),
                               'active': ('acc_state_active', NONE), 'nonexist': ('acc_state_nonexist', NONE)})
 R['HashUpdate'] = rec(('old_hash', 'old_hash', BITS), ('new_hash', 'new_hash', BITS))
@@ -379,6 +408,8 @@ READERS = R
 def parsers():
     from pytoniq_core.tlb import transaction as T, account as A, block as B, config as C, utils as U
     P = {
+        'MsgAddressInt': lambda s: s.load_address(), 'MsgAddressExt': lambda s: s.load_address(),
+        'CommonMsgInfo': T.CommonMsgInfo.deserialize, 'MessageRef': lambda s: T.MessageAny.deserialize(s.load_ref().begin_parse()),
         'CurrencyCollection': B.CurrencyCollection.deserialize, 'ExtraCurrencyCollection': B.ExtraCurrencyCollection.deserialize,
         'TickTock': A.TickTock.deserialize, 'StateInit': A.StateInit.deserialize,
         'AccountStatus': A.AccountStatus.deserialize, 'HashUpdate': U.HashUpdate.deserialize, 'StorageUsed': A.StorageUsed.deserialize,
@@ -473,7 +504,7 @@ def diff(spec, lib, path, ctx_info):
             if len(extras) != len(lib[2]):
                 return (path + '.extras#', len(extras), len(lib[2]))
             for i, (a, b) in enumerate(zip(extras, lib[2])):
-                d = diff(a, b, f'{path}.extra', ctx_info)
+                d = diff(a, b, f'{path}[].extra', ctx_info)
                 if d:
                     return d
             return None
@@ -482,7 +513,7 @@ def diff(spec, lib, path, ctx_info):
             if len(leaves) != len(lib[1]):
                 return (path + '.leaves#', len(leaves), len(lib[1]))
             for i, (a, b) in enumerate(zip(leaves, lib[1])):
-                d = diff(a, b, f'{path}.leaf', ctx_info)
+                d = diff(a, b, f'{path}[].leaf', ctx_info)
                 if d:
                     return d
             return None
@@ -519,8 +550,12 @@ def diff(spec, lib, path, ctx_info):
     if spec is None or lib is None:
         return None if spec is None and lib is None else (path, spec, lib)
     if isinstance(spec, (bool, int)) and isinstance(lib, (bool, int)):
+        if 'leaf' in ctx_info:
+            ctx_info['leaf'](path, lib)
         return None if int(spec) == int(lib) else (path, spec, lib)
     if isinstance(spec, str) and isinstance(lib, str):
+        if 'leaf' in ctx_info:
+            ctx_info['leaf'](path, lib)
         return None if spec == lib else (path, spec, lib)
     return (path, spec, lib)
 
@@ -559,40 +594,174 @@ def short(x, n=400):
     return s if len(s) <= n else s[:n] + '...'
 
 
-def check_value(ctx, P, ty, seed, g, tag='gen'):
-    """g = parsed tlbgen answer. Parse the cell with the library and compare."""
-    inp = {'type': ty, 'seed': seed, 'value': g['value'], 'dag': '|'.join(f"{k},{b or '-'},{'.'.join(map(str, r)) or '-'}" for k, b, r in g['nodes']),
-           'trailer_bits': g['tbits'], 'trailer_refs': g['trefs']}
-    for c in V.ctor_names(g['value']):
-        ctx.count('ctor:' + c)
+def dag_str(nodes):
+    return '|'.join(f"{k},{b or '-'},{'.'.join(map(str, r)) or '-'}" for k, b, r in nodes)
+
+
+def evaluate(P, ty, g):
+    """Parse the cell of `g` (a parsed tlbgen / tlbgent answer) with the library. Returns (failure | None, trace mismatches, stats);
+    failure = (key, what, observed, expected): the parsed value / consumption differs from the encoded value."""
     cells = V.build(g['nodes'])
     root = cells[-1]
     if root is None:
-        ctx.corr_broken(f'library could not build the cell of {ty} seed {seed}')
-        return
-    sl = root.begin_parse()
+        return ('build', None, None, None), [], {}
     top = g['value'].get('$') if isinstance(g['value'], dict) and '$' in g['value'] else ''
-    try:
-        obj = P[ty](sl)
-    except Exception as e:
-        ctx.fail(f'raise:{ty}:{top}', f'{ty}.deserialize raised {type(e).__name__} on a valid encoding ({top or "value"})', inp,
-                 f'{type(e).__name__}: {e}', 'parsed value')
-        return
+    traced = g.get('trace') is not None
+    tracer = TR.Tracer()
+    with tracer:
+        sl = tracer.root(root) if traced else root.begin_parse()
+        try:
+            obj = P[ty](sl)
+        except Exception as e:
+            return (f'raise:{ty}:{top}', f'{ty}.deserialize raised {type(e).__name__} on a valid encoding ({top or "value"})',
+                    f'{type(e).__name__}: {e}', 'parsed value'), [], {}
+        if traced:
+            sl.finish()
     try:
         lib = READERS[ty](obj)
     except Bad as e:
-        ctx.fail(f'shape:{ty}:{top}', f'{ty}: parsed object lacks a schema field: {e}', inp, str(e), 'all schema fields present')
-        return
-    d = diff(g['value'], lib, '', {'keylen': keylen_for(ty)})
+        return (f'shape:{ty}:{top}', f'{ty}: parsed object lacks a schema field: {e}', str(e), 'all schema fields present'), [], {}
+    mism, prov, stats, locs = [], {}, {}, {}
+    if traced:
+        mism = TR.compare(TR.parse_spec_trace(g['trace']), tracer.top, 'top', True, prov, stats, None, locs)
+    info = {'keylen': keylen_for(ty)}
+    if traced:
+        def leaf(path, libval):
+            ev = getattr(libval, '_ev', None)
+            if ev is None or '[' in path or ev not in prov:
+                return
+            stats['prov_checked'] = stats.get('prov_checked', 0) + 1
+            src, where, lo, hi = prov[ev]
+            if src != path:
+                ranges = [(lo, hi)] + ([locs[path][1:]] if path in locs and locs[path][0] == where else [])
+                mism.append(dict(kind='order', cell=where, path=path, reads=src, ev=ev, ranges=ranges,
+                                 detail=f'the value returned as field {path} was read from the position of schema field {src}'))
+        info['leaf'] = leaf
+    d = diff(g['value'], lib, '', info)
     if d:
         path, want, got = d
-        ctx.fail(f'field:{ty}:{re.sub(r"\[[0-9]*\]", "", path)}', f'{ty}: field {path} differs from the encoded value', inp, short(got), short(want))
-        return
+        return (f'field:{ty}:{re.sub(r"\[[0-9]*\]", "", path)}', f'{ty}: field {path} differs from the encoded value', short(got), short(want)), mism, stats
     rb, rr = sl.bits.to01(), sl.remaining_refs
     want_b, want_r = g['tbits'], g['trefs']
     if rb != want_b or rr != want_r:
-        ctx.fail(f'consume:{ty}:{top}', f'{ty}.deserialize did not consume exactly the encoded bits/refs', inp,
-                 {'remaining_bits': rb, 'remaining_refs': rr}, {'remaining_bits': want_b, 'remaining_refs': want_r})
+        return (f'consume:{ty}:{top}', f'{ty}.deserialize did not consume exactly the encoded bits/refs',
+                {'remaining_bits': rb, 'remaining_refs': rr}, {'remaining_bits': want_b, 'remaining_refs': want_r}), mism, stats
+    return None, mism, stats
+
+
+def exhibit(ctx, P, ty, g, m):
+    """A trace mismatch on a value that happened to parse equally: look for a value of the same shape on which the parsed
+    fields differ — overwrite the bits of the mismatching reads (all ones / top bit / random), let the SPEC decoder say what
+    value that encoding denotes, parse it with the library."""
+    import random
+    if 'lo' not in m and m.get('kind') != 'order':
+        return None
+    if m.get('kind') in ('overread', 'overread_refs'):
+        return None
+    rng = random.Random(f"{ty}:{m.get('cell')}:{m.get('lo')}:{m.get('path')}")
+    nodes = list(g['nodes'])
+    try:
+        ci = TR.node_path_to_dag(nodes, m.get('cell', 'top'))
+    except Exception:
+        return None
+    kind, bits, refs = nodes[ci]
+    if m.get('kind') == 'order':
+        ranges = m.get('ranges') or []
+    else:
+        lim = m.get('spec_bits', len(bits))
+        ranges = [(min(m['lo'], m['lib_lo']), min(max(m['hi'], m['lib_hi']), lim))]
+    if not ranges:
+        return None
+    pats = ['1', 'top', 'low', '10', '01'] + ['rnd'] * 8
+    lines, cands = [], []
+    for pat in pats:
+        b = list(bits)
+        for (lo, hi) in ranges:
+            w = hi - lo
+            if pat == '1':
+                seg = '1' * w
+            elif pat == 'top':
+                seg = '1' + '0' * (w - 1)
+            elif pat == 'low':
+                seg = '0' * (w - 1) + '1'
+            elif pat in ('10', '01'):
+                seg = (pat * w)[:w]
+            else:
+                seg = ''.join(rng.choice('01') for _ in range(w))
+            if m.get('kind') != 'order' and m.get('spec_kind') == 'v':
+                # keep the length prefix of a VarUInteger
+                seg = bits[lo:lo + m.get('lenbits', 4)] + seg[m.get('lenbits', 4):]
+            b[lo:hi] = seg
+        nb = ''.join(b)
+        if nb == bits:
+            continue
+        n2 = list(nodes)
+        n2[ci] = (kind, nb, refs)
+        cands.append(n2)
+        lines.append(f'tlbtrace {ty} {dag_str(n2)} {len(n2) - 1}')
+    if not lines:
+        return None
+    for n2, ans in zip(cands, ctx.model.run(lines)):
+        d = V.parse_trace_answer(ans)
+        if d is None or d['rbits'] != g['tbits'] or d['rrefs'] != g['trefs']:
+            continue
+        g2 = dict(value=d['value'], nodes=n2, tbits=d['rbits'], trefs=d['rrefs'], rt=True, trace=d['trace'])
+        f, _, _ = evaluate(P, ty, g2)
+        if f is not None and f[0] != 'build':
+            return g2, f
+    return None
+
+
+def check_value(ctx, P, ty, seed, g, tag='gen'):
+    """g = parsed tlbgen answer. Parse the cell with the library and compare (fields, consumption, read trace)."""
+    def inp_of(g):
+        return {'type': ty, 'seed': seed, 'value': g['value'], 'dag': dag_str(g['nodes']), 'trailer_bits': g['tbits'], 'trailer_refs': g['trefs']}
+    for c in V.ctor_names(g['value']):
+        ctx.count('ctor:' + c)
+    f, mism, stats = evaluate(P, ty, g)
+    for k, v in stats.items():
+        if k.startswith('where:'):
+            # what the library leaves unparsed (kept as a cell / raw slice), by type and first schema field concerned
+            w = ctx.stats.setdefault('trace_unparsed', {})
+            kind_, _, pth_ = k[6:].partition(':')
+            kk = f"{ty}:{kind_}:{'(inside a dictionary)' if pth_ == 'None' else pth_.split('.')[-1]}"
+            if kk in w or len(w) < 200:
+                w[kk] = w.get(kk, 0) + v
+        else:
+            ctx.count('trace:' + k, v)
+    if mism:
+        ctx.count(f'trace_mismatch_values:{ty}')
+    if f is not None:
+        if f[0] == 'build':
+            ctx.corr_broken(f'library could not build the cell of {ty} seed {seed}')
+            return False
+        ctx.fail(f[0], f[1], inp_of(g), f[2], f[3])
+        return False
+    if g.get('trace') is None:
+        return True
+    ctx.count('trace_compared')
+    if not mism:
+        return True
+    m = mism[0]
+    ctx.count('trace_mismatch:' + m['kind'])
+    pth = re.sub(r'\[[0-9]*\]', '', str(m.get('path')))
+    done = ctx.stats.setdefault('trace_exhibited', {})
+    key = f'trace:{ty}:{m["kind"]}:{pth}'
+    if done.get(key, 0) >= 2:
+        return False                      # this mismatch already has its concrete failing values
+    tried = ctx.stats.setdefault('trace_exhibit_attempts', {})
+    tried[key] = tried.get(key, 0) + 1
+    ex = exhibit(ctx, P, ty, g, m) if tried[key] <= 4 else None
+    if ex is not None:
+        done[key] = done.get(key, 0) + 1
+    if ex is not None:
+        g2, f2 = ex
+        ctx.fail(key, f'{ty}: read trace differs from the schema ({m["detail"]}); on this value of the same shape: {f2[1]}',
+                 inp_of(g2), f2[2], f2[3])
+    else:
+        ctx.corr_broken(f'read trace of {ty}.deserialize differs from the spec codec on {ty} seed {seed} ({tag}): {m["kind"]}: {m["detail"]} '
+                        f'[cell {m.get("cell")}] (no value found on which a parsed field differs)')
+    return False
 
 
 def run_types(ctx, P, types, per_type):
@@ -601,12 +770,12 @@ def run_types(ctx, P, types, per_type):
     for ty in types:
         for _ in range(per_type * WEIGHT.get(ty, 1)):
             reqs.append((ty, rng.randrange(1 << 30)))
-    outs = ctx.model.run([f'tlbgen {ty} {seed}' for ty, seed in reqs])
+    outs = ctx.model.run([f'tlbgent {ty} {seed}' for ty, seed in reqs])
     for (ty, seed), ans in zip(reqs, outs):
         if ans == 'bad-op':
             ctx.corr_broken(f'driver does not know type {ty}')
             continue
-        g = V.parse_gen_answer(ans)
+        g = V.parse_gent_answer(ans)
         if g is None:
             ctx.case((ty, seed), nontrivial=False)
             ctx.count('unencodable:' + ty)
@@ -615,7 +784,83 @@ def run_types(ctx, P, types, per_type):
         ctx.count('type:' + ty)
         if not g['rt']:
             ctx.corr_broken(f'spec decoder did not invert spec encoder: {ty} seed {seed}')
+        if not g['rp']:
+            ctx.corr_broken(f'spec read trace is not a read script of the spec encoding: {ty} seed {seed}')
         check_value(ctx, P, ty, seed, g)
+
+
+# types whose FULL path enumeration (all nested types enumerated too) is attempted in the quick tier; the others have far more
+# than PATH_CAP paths (products over nested types) and get LOCAL path coverage (own branch structure; nested types sampled)
+HEAVY = {'Message', 'TransactionDescr', 'Transaction', 'MsgEnvelope', 'InMsg', 'OutMsg', 'ValueFlow', 'ShardStateUnsplit', 'ShardState',
+         'BlockExtra', 'Block'}
+PATH_CAP = 300
+LOC_ROUNDS = 3
+
+
+def run_paths(ctx, P, types):
+    """one generated value per PATH of the schema term of every type, parsed and trace-compared.  The enumeration order of the
+    paths of a type is fixed by its term, so a path is identified by its index; a path whose value does not fit a cell
+    (> 1023 bits / > 4 refs for the drawn field values) is retried with other field values in later rounds."""
+    rng = ctx.rng
+    cap_full = ctx.n(PATH_CAP, 3000)
+    jobs = {}        # (ty, mode) -> dict(cap, total, more, covered=set(), failed=set())
+    for ty in types:
+        if ty not in HEAVY or ctx.thorough:
+            jobs[(ty, 'full')] = dict(cap=cap_full if ty not in HEAVY else 600, total=None, more=False, covered=set(), failed=set())
+        jobs[(ty, 'loc')] = dict(cap=cap_full, total=None, more=False, covered=set(), failed=set())
+    rounds = {'full': ctx.n(3, 6), 'loc': ctx.n(8, 16)}
+    for rnd in range(max(rounds.values())):
+        reqs = [(ty, mode, rng.randrange(1 << 30)) for (ty, mode), j in jobs.items()
+                if rnd < rounds[mode] and (j['total'] is None or len(j['covered']) + len(j['failed']) < j['total'])]
+        if not reqs:
+            break
+        outs = ctx.model.run([f"tlbpaths {ty} {seed} {jobs[(ty, mode)]['cap']} {mode}" for ty, mode, seed in reqs])
+        for (ty, mode, seed), ans in zip(reqs, outs):
+            j = jobs[(ty, mode)]
+            pa = V.split_paths_answer(ans)
+            if pa is None:
+                ctx.corr_broken(f'driver could not enumerate the paths of {ty} ({mode})')
+                j['total'] = 0
+                continue
+            n, more, raw = pa
+            if j['total'] is not None and j['total'] != n:
+                ctx.corr_broken(f'number of paths of {ty} ({mode}) is not stable: {j["total"]} / {n}')
+            j['total'], j['more'] = n, more
+            for i, txt in enumerate(raw):
+                if i in j['covered'] or i in j['failed']:
+                    continue
+                g = V.parse_gent_answer(txt)
+                if g is None:
+                    ctx.case((ty, mode, seed, i), nontrivial=False)
+                    ctx.count('unencodable-path')
+                    continue
+                ctx.case((ty, mode, seed, i))
+                ctx.count('path-values')
+                if not g['rt'] or not g['rp']:
+                    ctx.corr_broken(f'spec decoder / read trace does not invert the spec encoder: {ty} path {i} seed {seed}')
+                if check_value(ctx, P, ty, f'{mode}:{seed}:{i}', g, f'path {mode} #{i}'):
+                    j['covered'].add(i)
+                else:
+                    j['failed'].add(i)
+    table = ctx.stats.setdefault('paths', {})
+    for ty in types:
+        full, loc = jobs.get((ty, 'full')), jobs[(ty, 'loc')]
+
+        def tot(j):
+            return f">{j['cap']}" if j['more'] else j['total']
+        table[ty] = dict(
+            paths_total=tot(full) if full else f'> {PATH_CAP} (enumerated in the thorough tier only)', paths_covered=len(full['covered']) if full else 0,
+            local_paths_total=tot(loc), local_paths_covered=len(loc['covered']),
+            path_complete=bool(full and not full['more'] and full['total'] and len(full['covered']) == full['total']),
+            local_path_complete=bool(not loc['more'] and loc['total'] and len(loc['covered']) == loc['total']))
+    pc = sorted(t for t, v in table.items() if v['path_complete'])
+    lc = sorted(t for t, v in table.items() if not v['path_complete'] and v['local_path_complete'])
+    rest = sorted(t for t, v in table.items() if not v['path_complete'] and not v['local_path_complete'])
+    ctx.notes.append(f'path-complete trace agreement (every path of the schema term, nested types included): {len(pc)} types: {" ".join(pc)}')
+    ctx.notes.append(f'local path-complete trace agreement (every path of the type\'s own branch structure; nested named types and '
+                     f'dictionary shapes sampled): {len(lc)} types: {" ".join(lc)}')
+    ctx.notes.append('paths not all exercised in this run (value does not fit a cell for the drawn field values): '
+                     + (' '.join(f"{t}({table[t]['local_paths_covered']}/{table[t]['local_paths_total']} local)" for t in rest) or 'none'))
 
 
 def run(ctx):
@@ -624,6 +869,7 @@ def run(ctx):
             'McBlockExtra', 'McStateExtra', 'BlockExtra', 'Block', 'ShardStateUnsplit', 'ShardState']
     order = sorted(t for t in P if t not in late) + late
     run_types(ctx, P, order, ctx.n(100, 1500))
+    run_paths(ctx, P, order)
     mainnet(ctx)
 
 
@@ -657,17 +903,24 @@ def mainnet(ctx):
     dag, ri = V.dag_of_cell(root)
     inp = {'block': 'tests/test_cell.py block_boc', 'root_hash': root.hash.hex()}
     ctx.case(('mainnet', root.hash.hex()), sample=inp)
-    d = V.parse_dec_answer(ctx.model.run([f'tlbdec Block {dag} {ri}'])[0])
+    d = V.parse_trace_answer(ctx.model.run([f'tlbtrace Block {dag} {ri}'])[0])
     if d is None or d['rbits'] or d['rrefs']:
         ctx.corr_broken('spec decoder does not read the bundled main-net block exactly (spec too strict or wrong)')
         return
     nb, nt = count_txs(d['value'])
     ctx.count('mainnet_account_blocks', nb)
     ctx.count('mainnet_transactions', nt)
-    sl = root.begin_parse()
-    try:
-        obj = Block.deserialize(sl)
-    except Exception as e:
+    tracer = TR.Tracer()
+    with tracer:
+        sl = tracer.root(root)
+        try:
+            obj = Block.deserialize(sl)
+            sl.finish()
+            err = None
+        except Exception as e:
+            err = e
+    if err is not None:
+        e = err
         ctx.fail('raise:mainnet-block', f'Block.deserialize raised {type(e).__name__} on the bundled main-net block', inp, f'{type(e).__name__}: {e}', 'parsed')
         return
     try:
@@ -692,6 +945,15 @@ def mainnet(ctx):
     if sl.remaining_bits or sl.remaining_refs:
         ctx.fail('consume:mainnet-block', 'Block.deserialize left bits/refs of the bundled block unread', inp,
                  [sl.remaining_bits, sl.remaining_refs], [0, 0])
+        return
+    # read trace of the library on the real block vs the spec codec's trace of the decoded value (all cells the library parses)
+    stats = {}
+    mism = TR.compare(TR.parse_spec_trace(d['trace']), tracer.top, 'top', True, {}, stats)
+    ctx.case(('mainnet', 'trace'))
+    ctx.count('mainnet_trace_typed_reads', stats.get('typed_ok', 0) + stats.get('raw_ok', 0))
+    if mism:
+        m = mism[0]
+        ctx.corr_broken(f'bundled main-net block: read trace of Block.deserialize differs from the spec codec: {m["kind"]}: {m["detail"]} [cell {m.get("cell")}]')
 
 
 def unjson(x):
@@ -714,7 +976,9 @@ def replay(ctx, payload):
         g = dict(value=inp['value'], nodes=V.parse_dag(inp['dag']), tbits=inp.get('trailer_bits', ''), trefs=inp.get('trailer_refs', 0), rt=True)
         ctx.case((inp['type'], inp.get('seed'), 'replay'))
         # the spec decoder must still read the recorded cell as the recorded value
-        d = V.parse_dec_answer(ctx.model.run([f"tlbdec {inp['type']} {inp['dag']} {len(g['nodes']) - 1}"])[0])
+        d = V.parse_trace_answer(ctx.model.run([f"tlbtrace {inp['type']} {inp['dag']} {len(g['nodes']) - 1}"])[0])
         if d is None or d['value'] != inp['value'] or d['rbits'] != g['tbits'] or d['rrefs'] != g['trefs']:
             ctx.corr_broken(f"spec decoder no longer reads the recorded {inp['type']} encoding as the recorded value")
+        else:
+            g['trace'] = d['trace']
         check_value(ctx, parsers(), inp['type'], inp.get('seed'), g, 'replay')
